@@ -256,7 +256,22 @@ class C07:
         for y in other:
             ctx.bad("R07.3", self.file, "_select_matches", f"yield {show(y.term)[:50]}", "unexpected yield shape", y.lineno)
         if len(two) != 1:
-            ctx.undec("R07.3", site, f"{len(two)} two-sided yields (expected 1)")
+            # several pairing paths (a shortcut next to the solver): whatever else they do, each must pair only on a positive cell
+            unguarded = []
+            for y_ in two:
+                r_, c_ = y_.term[1]
+                cell_ = ("sub", M, ("tuple", (r_, c_)))
+                alt_ = [("sub", ("sub", M, r_), c_), ("sub", ("sub", M, ("tuple", (("slice", NONE, NONE, NONE), c_))), r_)]
+                conj_ = conjuncts(y_.live)
+                if not any(("cmp", "lt", ("const", z_), x_) in conj_ for z_ in (0, 0.0) for x_ in [cell_] + alt_):
+                    unguarded.append(y_)
+            for y_ in unguarded:
+                ctx.bad("R07.4", self.file, "_select_matches", f"yield {show(y_.term)[:60]} if {show(y_.live)[:60]}",
+                        f"the pair `{show(y_.term)[:60]}` is yielded under `{show(y_.live)[:80]}` without requiring its affinity cell to be "
+                        f"positive: two geometries that do not overlap are reported as matched with affinity 0.0 instead of two one-sided "
+                        f"entries", y_.lineno, witness={"input": "match_geometries([box A], [disjoint box B])", "observed": "(0, 0, 0.0)"})
+            if not unguarded:
+                ctx.undec("R07.3", site, f"{len(two)} two-sided yields (expected 1)")
             return
         y = two[0]
         L = s.loops.get(y.loops[-1]) if y.loops else None
